@@ -87,7 +87,7 @@ func c15Scenario(c *Ctx) {
 			}
 			c12Tails = nil
 		case hasPfx(arg, "S4"):
-			c08RunWith(c, 10)
+			c08RunWith(c, 10, 1)
 		case hasPfx(arg, "S8"):
 			for round := 0; round < 6; round++ {
 				c15InflightAcrossStartTLS(c, pki, round)
